@@ -28,3 +28,11 @@ def register_all(chk):
         "overlay copy of /repo and proved by proof_for_contract harnesses over ALL argument bit patterns (loop-free, complete). Tree/alias "
         "constructors: the Verus contracts of C08/C09. Regions where the documentation is silent or contradictory are marked unspecified in the spec.",
         verus=True, kani=True)
+    chk.contract_property(
+        "C03", "Every sample lies in the support; sampling never panics",
+        "Per-unit support / no-panic postconditions of `sample` on the real code, proved by loop-free Kani harnesses over ALL parameter values "
+        "in the envelope E and ALL RNG words (a superset of the single-adversarial-word quantifier): the six one-draw samplers (non-NaN, lower "
+        "bound, exactly one word consumed), with libm replaced by assumed special-value/sign contracts. Weighted indices are covered by the Verus "
+        "proofs of C08/C10 (index < len, weight non-zero, no panic). Known findings (Gumbel/Frechet at a uniform draw of exactly 1) are pinned by "
+        "their own harnesses and excluded by an explicit assume. Samplers with rejection loops and product-bounded supports are NOT claimed (see not_reached in DESIGN.md).",
+        verus=False, kani=True)
